@@ -227,6 +227,10 @@ def c19(pid, tier, seed):
                         MsgShapes=("e", "a", "Wm1", "W", "W1", "2W", "2W1", "3W", "AnlB"), TextShapes=("T", "TW", "TW1", "T2W1"), Base=0, shards=4))
     fams.append(fam("geo_multi", W=2, H=3, Multi=True, MaxBars=5, D=5 if q else 7, BarOps=("tick", "finish_and_clear", "mp_remove"), MpOps=("mp_println",),
                     TextShapes=("T",), Tpls=("M",), Fins=("AndLeave",), M0="id", shards=12))
+    # set_move_cursor(true): no line is cleared, the frame is overwritten in place; with frames that keep their shape (here: wrapped lines of
+    # constant width, only a digit changes) the screen must still be exactly the frame
+    fams.append(fam("geo_move_cursor", W=4, H=10, Multi=True, MaxBars=2, Pre=2, D=7 if q else 9, BarOps=("tick", "inc"), MpOps=("mp_set_move_cursor",),
+                    Tpls=("MC",), Fins=("AndLeave",), M0="idw", DTs=(1000,), shards=8))
     fams.append(fam("geo_multi_deep", W=3, H=4, Multi=True, MaxBars=6, D=24, BarOps=("tick", "set_message", "finish_and_clear", "mp_remove", "drop"), MpOps=("mp_println", "insert_rel"),
                     MsgShapes=("a", "W", "W1", "2W1"), TextShapes=("T", "TW1"), Tpls=("M",), Fins=("AndLeave", "AndClear"), M0="id", mode=("sim", 400 if q else 4000, 26), shards=12))
     return screen_check(pid, tier, seed, fams,
